@@ -164,6 +164,13 @@ def add_corpora(cases, rng):
             k = rng.choice([1, 1, 2, 3])
             words.append([f, sorted(rng.sample(range(1, n + 1), min(k, n)))])
         g['words'] = words
+        # a word may also have a synset in a part of speech for which no information content is
+        # kept (u, c, x ...): it shares the word's count when that is distributed, and gets
+        # nothing itself (an extra synset without hypernym edges)
+        if rng.random() < 0.3:
+            g['n'] = n + 1
+            g['pos'] = list(g['pos']) + [rng.choice(['u', 'c', 'x'])]
+            rng.choice(words)[1].append(n + 1)
         g['corpora'] = []
         for _ in range(2):
             toks = [rng.choice([w[0] for w in words] + ['unknown', 'w1'])
@@ -181,7 +188,7 @@ def add_corpora(cases, rng):
         if rows and rng.random() < 0.2:
             rows.append([rows[0][0], rng.randint(51, 60), False])
         # (weights files know n / v / a / r only; ids of satellite synsets carry '-s')
-        g['icfiles'] = [{'rows': rows}] if 's' not in g['pos'] else []
+        g['icfiles'] = [{'rows': rows}] if set(g['pos']) <= {'n', 'v', 'a', 'r'} else []
 
 
 def c15(tier: str) -> int:
